@@ -11,6 +11,8 @@ package main
 import (
 	"encoding/json"
 	"fmt"
+	"io"
+	"log"
 	"os"
 	"runtime/pprof"
 	"sort"
@@ -238,6 +240,7 @@ func main() {
 		}
 	}
 
+	log.SetOutput(io.Discard) // log.Panicf of the code under test prints before it panics
 	c := vlib.Start("C06")
 	if pf := os.Getenv("C06_CPUPROFILE"); pf != "" {
 		f, _ := os.Create(pf)
@@ -250,6 +253,9 @@ func main() {
 	}
 	nPairs := c.N(40, 2000)
 	nScalarPairs := c.N(40, 500)
+	if os.Getenv("C06_ONLY_CANONICAL") != "" { // the seed-independent batteries alone
+		nPairs, nScalarPairs = 0, 0
+	}
 
 	dec := newDecoders()
 
@@ -275,8 +281,6 @@ func main() {
 	}
 	stats0 := make([]*opStatus, len(jobs))
 	// the decoders are only read; every goroutine has its own runner
-	var decMu sync.Mutex
-	_ = decMu
 	runners := sync.Pool{New: func() any { return newRunner() }}
 	vlib.Parallel(len(jobs), 0, func(i int) {
 		rn := runners.Get().(*runner)
